@@ -80,6 +80,9 @@ pub enum Outcome {
     Value(Box<FDump>),
     Died { class: String, detail: String },
     Blocked,
+    /// one thread does nothing but sched_yield for tens of seconds while no other thread of the
+    /// process can run: it waits for a change nobody is left to make (a spin-wait gone stale)
+    Spinning,
     Timeout,
 }
 
@@ -89,6 +92,7 @@ impl Outcome {
             Outcome::Value(_) => "value".into(),
             Outcome::Died { class, .. } => class.clone(),
             Outcome::Blocked => "blocked".into(),
+            Outcome::Spinning => "spinning".into(),
             Outcome::Timeout => "timeout".into(),
         }
     }
@@ -214,6 +218,64 @@ impl Child {
         Some((all_sleep, ticks))
     }
 
+    /// One sampling window: exactly one thread of the reader is not asleep (the others, if any,
+    /// sleep in a futex wait without timeout) and, traced for 1.5 s (`strace -c`), the process
+    /// makes thousands of system calls every one of which is sched_yield. Such a thread runs a loop
+    /// around sched_yield whose exit depends on memory that no other thread of the process can
+    /// change any more. (The `syscall` file of /proc cannot show this: a yield returns at once.)
+    fn yield_spin_window(&self) -> bool {
+        let pid = self.proc.id();
+        let Ok(tasks) = std::fs::read_dir(format!("/proc/{pid}/task")) else { return false };
+        let mut awake = 0;
+        for t in tasks.flatten() {
+            let Ok(stat) = std::fs::read_to_string(t.path().join("stat")) else { return false };
+            let Some((_, rest)) = stat.rsplit_once(')') else { return false };
+            let state = rest.split_whitespace().next().unwrap_or("");
+            let sc = std::fs::read_to_string(t.path().join("syscall")).unwrap_or_default();
+            let f: Vec<&str> = sc.split_whitespace().collect();
+            let futex_forever = f.first() == Some(&"202") && f.get(4).map_or(false, |a| *a == "0x0");
+            if !(state == "S" && futex_forever) {
+                awake += 1;
+            }
+        }
+        if awake != 1 {
+            return false;
+        }
+        let out = self.stderr_path.with_extension("strace");
+        let _ = std::fs::remove_file(&out);
+        let st = std::process::Command::new("timeout")
+            .args(["-s", "INT", "1.5", "strace", "-f", "-c", "-q", "-p", &pid.to_string(), "-o"])
+            .arg(&out)
+            .stdout(std::process::Stdio::null())
+            .stderr(std::process::Stdio::null())
+            .status();
+        if st.is_err() {
+            return false;
+        }
+        let txt = std::fs::read_to_string(&out).unwrap_or_default();
+        let _ = std::fs::remove_file(&out);
+        // summary lines: "% time seconds usecs/call calls [errors] syscall"
+        let mut yields = 0u64;
+        let mut others = 0u64;
+        for l in txt.lines() {
+            let w: Vec<&str> = l.split_whitespace().collect();
+            if w.len() < 5 || !w[0].chars().next().map_or(false, |c| c.is_ascii_digit()) {
+                continue;
+            }
+            let name = w[w.len() - 1];
+            if name == "total" {
+                continue;
+            }
+            let calls: u64 = w[3].parse().unwrap_or(0);
+            if name == "sched_yield" {
+                yields += calls;
+            } else {
+                others += calls;
+            }
+        }
+        yields >= 1000 && others == 0
+    }
+
     fn run(&mut self, job: &Job, soft: Duration, hard: Duration) -> (Outcome, bool) {
         // returns (outcome, child_must_be_restarted)
         let line = serde_json::to_string(job).unwrap();
@@ -221,6 +283,7 @@ impl Child {
             return (self.death(), true);
         }
         let t0 = Instant::now();
+        let mut spin_seen: Option<Instant> = None;
         loop {
             match self.rx.recv_timeout(soft) {
                 Ok(l) => {
@@ -256,6 +319,15 @@ impl Child {
                                 return (Outcome::Blocked, true);
                             }
                         }
+                    }
+                    // spinning forever? two windows of pure sched_yield at least 20 s apart
+                    if t0.elapsed() > Duration::from_secs(24) && self.yield_spin_window() && spin_seen.map_or(false, |t: Instant| t.elapsed() > Duration::from_secs(20)) {
+                        let _ = self.proc.kill();
+                        let _ = self.proc.wait();
+                        return (Outcome::Spinning, true);
+                    }
+                    if spin_seen.is_none() && self.yield_spin_window() {
+                        spin_seen = Some(Instant::now());
                     }
                     if t0.elapsed() > hard {
                         let _ = self.proc.kill();
@@ -437,7 +509,9 @@ pub fn base_spec(shape: usize, packaging: Packaging, comp: Comp, seed: u32) -> C
                     variants: vec![],
                     sort: vec![0],
                     entries: (0..5u64).map(|i| RawEntry { variant: 0, vals: vec![rv(0, 6, 30 - 4 * i as u32), rv(i * 13000, 0, 0), rv(i * 9000, 0, 0), rv(77, 0, 0)] }).collect(),
-                    windows: vec![Win::Whole],
+                    // two indexes over ONE entry store (and one value store): the second one asks the
+                    // store caches for what the first one asked already
+                    windows: vec![Win::Whole, Win::Suffix(30000)],
                 }],
                 linked: true,
                 index_meta: true,
@@ -850,6 +924,19 @@ pub fn judge_c04_live(d: &FDump) -> Option<Failure> {
     if d.live_changed == Some(true) && !not_success(d.container_check.as_ref()) {
         return Some(Failure::new("live-alteration-served-while-check-true", "an opened container returns other entries/contents after a byte of its file was altered in place, and its check(), asked again on the same object, still answers Ok(true)".to_string()));
     }
+    // the pack objects the container hands out, asked before and after the alteration
+    if let Some((packs, dir)) = &d.live_detail {
+        for id in packs {
+            if let Some(Acc::Ok(true)) = d.object_checks.get(&format!("obj|{id}")) {
+                return Some(Failure::new("live-alteration-served-while-pack-check-true", format!("content pack {id}, as handed out by the opened container, serves other contents after a byte of its file was altered in place, and its own check(), asked again on the same object, still answers Ok(true)")));
+            }
+        }
+        if *dir {
+            if let Some(Acc::Ok(true)) = d.object_checks.get("obj|dir") {
+                return Some(Failure::new("live-alteration-served-while-pack-check-true", "the directory pack of the opened container serves other entries after a byte of its file was altered in place, and its own check(), asked again on the same object, still answers Ok(true)".to_string()));
+            }
+        }
+    }
     None
 }
 
@@ -935,6 +1022,7 @@ pub fn judge_c06(o: &Outcome, profile: Profile) -> Option<Failure> {
     match o {
         Outcome::Value(_) | Outcome::Timeout => None,
         Outcome::Blocked => Some(Failure::new("blocked", format!("[{profile:?}] every thread of the reader is asleep and consumes no cpu: blocked forever"))),
+        Outcome::Spinning => Some(Failure::new("spinning", format!("[{profile:?}] one thread of the reader makes no system call but sched_yield, thousands of times (two traced windows more than 20 s apart), while every other thread sleeps without timeout: it spins on a condition nobody is left to change"))),
         Outcome::Died { class, detail } => {
             let d = detail.replace("/repo/", "");
             // signature: class + source file + start of the message without digits (DESIGN 2.7)
@@ -1624,7 +1712,8 @@ pub fn check_cmd(id: &str, tier: Tier) -> i32 {
             } else {
                 let n = t.classes.entry(format!("violation:{}", f.sig)).or_default();
                 *n += 1;
-                if *n >= 400 {
+                // a spinning reader costs half a minute per case before it is decided
+                if *n >= if f.sig == "spinning" { 24 } else { 400 } {
                     runner.stop.store(true, Ordering::Relaxed);
                 }
                 if !t.failures.contains_key(&f.sig) {
@@ -1635,7 +1724,7 @@ pub fn check_cmd(id: &str, tier: Tier) -> i32 {
     });
     let t = tally.into_inner().unwrap();
     if runner.stop.swap(false, Ordering::Relaxed) {
-        summary.extra.insert("enumeration_cut_short".into(), serde_json::Value::String("one violation signature was met 400 times: the remaining cases were skipped (the run fails anyway)".into()));
+        summary.extra.insert("enumeration_cut_short".into(), serde_json::Value::String("one violation signature was met 400 times (24 for a spinning reader): the remaining cases were skipped (the run fails anyway)".into()));
     }
     summary.merged.evaluations += t.evaluations;
     summary.merged.cases += plain.len() as u64;
@@ -1670,7 +1759,7 @@ fn finish_faults(id: &str, tier: Tier, seed: u64, t0: Instant, mut summary: RunS
     let rule = match id {
         "C04" => "enumeration: for every base container (small containers of two shapes x packagings x compressions), for every pack found by the independent decoder, EVERY byte position of its checked range [start, start+checkInfoPos) and of its check block x masks {0x01,0x80,0xFF}, plus seeded scripts of 2-8 simultaneous xor/zero/overwrite edits inside the range; executed by reader children. Oracle: pristine container: every pack check, every file check and Container::check are Ok(true); altered: the check of that pack (by uuid) and Container::check answer Ok(false) or Err, never Ok(true). Non-trivial = the reader child returned a value (child deaths are C06's domain and excluded, counted under outcome:*); distinct by (base, structure kind hit, edit kind, outcome, profile).",
         "C05" => "enumeration: for every base container, EVERY byte position of every file x masks {0x01,0x80,0xFF}, plus seeded same-length scripts (zeroed / overwritten ranges of 2..512 bytes and xor, 1-4 edits, first position stratified per structure through the independent decoder's file map). Oracle: the reader child's access-by-access dump (pack count, per-pack content counts, index headers, every entry's variant and values, content sizes) equals the pristine dump or that access (or an enclosing one) returned an error; content bytes may differ only if Container::check then answers Ok(false)/Err. Non-trivial = the alteration hits a structure the dump path reads (everything but pack tails / foreign prefix) and the child returned a value; distinct by (base, structure kind hit, edit kind, outcome, profile). Bases include hand-assembled containers in three layouts (one file; two content packs sharing one external file; a pack stored twice in the container pack), every pack carrying free data in the manifest; the child also opens the manifest pack on its own and reports the pack list and every pack's free data by id and by uuid, compared like every other structural answer. Bases K: content-info table and entry-store data of exactly 1 KiB / 2 KiB with their CRC (255 and 511 contents). Bases P: loose content, directory and manifest pack files written by the low-level creators (one with an empty content pack); for every file of every base the child also calls ContentPack::new, DirectoryPack::new and ManifestPack::new on a WHOLE-FILE reader (no cut to the declared pack size first) and reports a structural digest (counts, sizes, locations) or the error, compared like the rest.",
-        _ => "enumeration: for every base container (all four compressions, one-file and two-file packagings), for every file: EVERY truncation length, EVERY byte position x masks {0x01,0xFF}, whole-file replacement {empty, random, text, 'jbkC'+random, another valid container} x 7 sizes, appended garbage x 7 sizes, seeded range scripts (zero/overwrite 2..512 bytes, optionally combined with truncation and appended garbage), in BOTH build profiles (debug-assertions+overflow-checks, and release). The reader child opens, dumps everything, streams every content whole and through 7-byte reads, runs every check. Oracle: outcome is a value or error value; panic (exit 101), abort (SIGABRT), any signal, blocked forever (all threads asleep, no cpu over 1 s) and no-progress (decode loop publishes the same length 1000 times) are violations; a wall-clock timeout is inconclusive. Non-trivial = the outcome differs from the pristine dump (the damage was observed); distinct by (base, structure kind hit, edit kind, outcome, profile). Bases P (loose pack files of the low-level creators, one with an EMPTY content pack: zero-length tables) and K (blocks that are exact multiples of 1 KiB); every file of every base is also handed as a whole-file reader to ContentPack::new, DirectoryPack::new and ManifestPack::new (what custom locators and the repository's own tests do).",
+        _ => "enumeration: for every base container (all four compressions, one-file and two-file packagings), for every file: EVERY truncation length, EVERY byte position x masks {0x01,0xFF}, whole-file replacement {empty, random, text, 'jbkC'+random, another valid container} x 7 sizes, appended garbage x 7 sizes, seeded range scripts (zero/overwrite 2..512 bytes, optionally combined with truncation and appended garbage), in BOTH build profiles (debug-assertions+overflow-checks, and release). The reader child opens, dumps everything, streams every content whole and through 7-byte reads, runs every check. Oracle: outcome is a value or error value; panic (exit 101), abort (SIGABRT), any signal, blocked forever (all threads asleep, no cpu over 1 s), spinning forever (one thread making thousands of system calls all of which are sched_yield, in two traced windows more than 20 s apart, while all others sleep without timeout) and no-progress (decode loop publishes the same length 1000 times) are violations; a wall-clock timeout is inconclusive. Non-trivial = the outcome differs from the pristine dump (the damage was observed); distinct by (base, structure kind hit, edit kind, outcome, profile). Bases P (loose pack files of the low-level creators, one with an EMPTY content pack: zero-length tables) and K (blocks that are exact multiples of 1 KiB); every file of every base is also handed as a whole-file reader to ContentPack::new, DirectoryPack::new and ManifestPack::new (what custom locators and the repository's own tests do).",
     };
     write_evidence(id, "fault_enumeration", tier, seed, rule, vec!["block transplants and re-checksummed content are outside the claim and not generated".into(), "positions are classified through the independent decoder's map of the pristine file".into()], t0, &summary);
     if !summary.violations.is_empty() {
